@@ -180,6 +180,19 @@ def explore(cfg, eng, ctx):
             eng.assert_(False, "%s raised %s: %s" % (stat, type(ex).__name__, str(ex)[:120]))
             return
         vals, valid = aggs.split_result(res, fmt)
+        _rescaled = {}
+
+        def rescaled(fac):
+            """The same weighted quantile with every weight multiplied by `fac` (NaN format)."""
+            if fac not in _rescaled:
+                if isinstance(weights, tuple):
+                    w2 = (weights[0] * fac, weights[1])
+                else:
+                    w2 = weights * fac
+                f2 = C.xfuncs.xfunc_quantile(fact, S.mkreal(prob), w2, ignore, float("nan"))
+                r2 = snp.asarray(cube.calculate([f2])[0])
+                _rescaled[fac] = r2.o.reshape(want_shape) if want_shape else r2.o.reshape(())
+            return _rescaled[fac]
         matrix = stat in ("covariance", "corrcoef")
         kshape = (K, K) if matrix else ((K,) if (K > 1 or cfg.get("force2d")) else ())
         want_shape = tuple(ishape) + kshape
@@ -318,6 +331,13 @@ def explore(cfg, eng, ctx):
                         if fmt == "pair":
                             c = z3.And(c, z3.Implies(sw > 0, bt(B[idx])))
                         eng.assert_(c, "weighted quantile cell %r is missing or outside [min, max] of the cell's valid values" % (idx,))
+                        # invariance under rescaling all weights (x2 and x1/4): same missing cells, same values
+                        got_missing = isnan if fmt == "nan" else z3.Not(bt(B[idx]))
+                        for fac in ((2,) if ctx.tier == "quick" else (2, Fraction(1, 4))):
+                            got2 = rescaled(fac)[idx]
+                            t2, n2, i2 = rparts(got2)
+                            eng.assert_(z3.And(bt(n2) == got_missing, z3.Implies(z3.Not(got_missing), t2 == gt)),
+                                        "weighted quantile cell %r changes when all weights are multiplied by %s" % (idx, fac))
         ctx.end_path()
 
     eng.explore(path)
